@@ -101,6 +101,7 @@ fn run_checksum(v: &Value) -> Vec<String> {
     let b = body(len, chars);
     let degenerate = len == 0 && chars != "lowerhex"; // same string as the lowerhex shape
     let s = match colons { 0 => format!("{name}{b}"), 1 => format!("{name}:{b}"), _ => format!("{name}:{}:{}", &b[..len / 2], &b[len / 2..]) };
+    let s = match sh["pad"].as_str().unwrap_or("none") { "leading-space" => format!(" {s}"), "trailing-newline" => format!("{s}\n"), "tab-crlf" => format!("\t{s}\r\n"), _ => s };
     let mut p = vec![];
     for (algo, want) in [("sha256", v["sha256"] == true), ("sha512", v["sha512"] == true)] {
         let (got, round) = if algo == "sha256" {
